@@ -149,6 +149,9 @@ type interpreter struct {
 	stepLimit          int64
 	params             map[string]int  // harness parameters (nd.Param)
 	known              map[string]bool // confirmed known findings (nd.Known)
+	traceSum           uint64          // digest of the nd.Assert / nd.Reach calls of the current path
+	traceN             int
+	noSample           bool            // the path used nd.Section / nd.NoRace (run concurrently by the native twin)
 	obligations        int             // assertion queries asked
 	discharged         int             // ... answered unsat
 	nontrivial         bool            // the current path executed an assertion with a non-constant condition
